@@ -259,6 +259,8 @@ val copy_into : bytes -> nat -> nat -> bytes -> ('a1, bytes) res
 
 val fill_range : bytes -> nat -> nat -> n -> ('a1, bytes) res
 
+val fill_if : bytes -> nat -> nat -> n -> ('a1, bytes) res
+
 val with_sub :
   bytes -> nat -> nat -> (bytes -> ('a1, 'a2 * bytes) res) -> ('a1,
   'a2 * bytes) res
@@ -426,6 +428,8 @@ type bye_cfg = { bye_c_padding : n; bye_c_sources : n list;
 val bye_calc : bye_cfg -> nat wres
 
 val bye_write_sources : n list -> nat -> bytes -> (nat * bytes) wres
+
+val bye_write_reason : bytes -> nat -> bytes -> (nat * bytes) wres
 
 val bye_write_unchecked : bye_cfg -> bytes -> (nat * bytes) wres
 
